@@ -163,6 +163,8 @@ def run(chk, replay=None):
     ells = [0, 1, 3, 102, 9999, 10000] if quick else [0, 1, 2, 3, 5, 6, 7, 100, 101, 4999, 5000, 8193, 9998, 9999, 10000]
     jobs += [("worst-case products ell in %s" % [e for e in ells if e < 1000], drive_products, ([e for e in ells if e < 1000],))]
     jobs += [("worst-case products ell=%d" % e, drive_products, ([e],)) for e in ells if e >= 1000]      # one job per long length
+    # short products whose half-words sit at boundary values (a carry between partial sums taken, dropped or doubled)
+    jobs += [("products on half-word boundary operands part %d" % i, c10.drive_halves, (10 + i, 100 if quick else 1000)) for i in range(3)]
     res = isolated_many(chk, jobs, timeout=2400, nproc=10)
     # stateful events (NttMeta followed by its stages) must stay together: one TLC process per job
     total, allbad = 0, 0
